@@ -242,3 +242,30 @@ pub fn property() -> Property {
         })],
     }
 }
+
+/// The same machinery for C01 (one stand-alone bar shared by the threads): "the lines printed through
+/// println/suspend, in order, followed by the bar" must also hold when another thread draws while a
+/// suspend closure runs - the documentation promises that the bar's lock is held meanwhile.
+pub fn property_c01() -> Property {
+    Property {
+        id: "C01",
+        level: "exploration",
+        assumptions: &["hooks on: every lock/condvar/spawn/join is a scheduling point of shuttle, and so is the gap between two lines the suspend closure writes"],
+        parts: vec![Box::new(Gen::<LogCase> {
+            name: "sched_suspend",
+            rule: "one stand-alone bar shared by 1-2 shuttle threads that tick/inc/set_message and one that runs suspend with a closure writing 2-3 token lines with a scheduling point between them, optionally one that calls println twice; 150 (thorough 2000) random or PCT schedules per program; on every flushed frame and at the end each token line is alone on its row, at most once, in order, never gone once seen, and at the end all are there above the bar, the bar once",
+            strategy: |t| {
+                let schedules = t.pick(150u32, 2000);
+                (1u8..=2, 1u8..=4, 2u8..=3, any::<bool>(), prop_oneof![Just(255u8), Just(20u8), 1u8..=255], 8u8..=40, any::<u64>(), proptest::option::weighted(0.3, 1u8..4))
+                    .prop_map(move |(drawers, updates, closure_lines, printer, hz, cols, seed, pct_depth)| LogCase { multi: false, drawers, updates, closure_lines, printer, hz, cols, seed, schedules, pct_depth })
+                    .boxed()
+            },
+            cases: |t| t.pick(30, 400),
+            run: run_log,
+            signature: no_signature,
+            essential: &["schedules_explored", "stand_alone_bar", "with_println_thread", "pct_scheduler"],
+            workers: default_workers(),
+            decode: None,
+        })],
+    }
+}
